@@ -117,36 +117,50 @@ def run(R):
     R.describe('C18.R3', 'check -> current value (*receiver.borrow()) of the stored receiver; watch -> WatchStream::new(clone of the stored receiver) (current value first); both NOT_FOUND on a missing name')
     with R.guard('C18.R3'):
         sh = h.body('server::HealthService::service_health::{closure#0}')
-        R.saw(sh)
-        g = sh.calls(pat='HashMap', name='get')
-        mp = sh.calls(pat='Option', name='map')
-        R.check(len(g) == 1 and len(mp) == 1 and mentions_call(sh.origin(mp[0][1]['args'][0]), name='get'), 'C18.R3', 'check:get.map', site(sh), 'reader.get(name).map(..)')
-        clo = strip_refs(sh.origin(mp[0][1]['args'][1])) if mp else ('x',)
-        if clo[0] == 'agg' and 'def' in clo[1]:
-            cb = h.body(clo[1]['def'])
-            R.saw(cb)
-            br = cb.calls(name='borrow')
-            okb = len(br) == 1 and 'watch::Receiver' in (br[0][1].get('fn') or '') and term_contains(cb.origin(br[0][1]['args'][0]), lambda x: x and x[0] == 'field' and x[2] in (1, '1'))
-            R.check(okb, 'C18.R3', 'check:current-value-of-stored-receiver', site(cb), '*p.1.borrow(): %r' % okb)
-            R.check(not cb.calls(name='borrow_and_update') and not cb.calls(name='changed'), 'C18.R3', 'check:not-consuming', site(cb), 'check does not consume change notifications')
+        fsh = family(h, sh)
+        R.saw(*fsh)
+        from_get_rx = lambda b_, t_: term_contains(b_.origin(t_), lambda x: is_call(x, name='get') and 'HashMap' in x[1]) or term_contains(b_.origin(t_), lambda x: x and x[0] == 'field' and x[2] in (1, '1'))
+        g = fam_calls(fsh, pat='HashMap', name='get')
+        R.check(len(g) == 1, 'C18.R3', 'check:get.map', site(sh), 'one lookup statuses.get(name) on the check path: %d' % len(g))
+        br = [(b_, bb, t) for b_, bb, t in fam_calls(fsh, name='borrow') if 'watch::Receiver' in (t.get('fn') or '')]
+        okb = len(br) == 1 and from_get_rx(br[0][0], br[0][2]['args'][0])
+        R.check(okb, 'C18.R3', 'check:current-value-of-stored-receiver', site(br[0][0], br[0][1]) if br else site(sh), 'the status returned is *receiver.borrow() of the receiver stored under that name: %r' % okb)
+        R.check(not fam_calls(fsh, name='borrow_and_update') and not fam_calls(fsh, name='changed'), 'C18.R3', 'check:not-consuming', site(sh), 'check does not consume change notifications')
         ck = h.body(re.compile(r'server::HealthService as .*Health>::check::\{closure#0\}$'))
+        fck = family(h, ck)
         R.saw(ck)
-        nf = ck.calls(pat='Status::not_found')
-        R.check(len(nf) == 1 and any(tm[0] == 'discr' and 'service_health' in show(tm) and vals in ([0], ['else']) for s, vals, tm in ck.edge_guards(nf[0][0])), 'C18.R3', 'check:not_found-on-miss', site(ck), 'Status::not_found when service_health is None')
+        nf = fam_calls(fck, pat='Status::not_found')
+        oknf = False
+        if len(nf) == 1:
+            b_, bb_, t_ = nf[0]
+            if b_ is ck:
+                oknf = any(tm[0] == 'discr' and 'service_health' in show(tm) and vals in ([0], ['else']) for s, vals, tm in ck.edge_guards(bb_))
+            else:
+                # inside the closure handed to ok_or_else / ok_or on the lookup result
+                oknf = any(t2.get('name') in ('ok_or_else', 'ok_or') and term_contains(ck.origin(t2['args'][0]), lambda x: is_call(x, name='service_health') or (x and x[0] == 'yield')) for bb2, t2 in ck.calls())
+        R.check(oknf, 'C18.R3', 'check:not_found-on-miss', site(ck), 'Status::not_found exactly when the name is not registered: %r' % oknf)
         shc = ck.calls(name='service_health')
         R.check(len(shc) == 1 and 'service' in show(ck.origin(shc[0][1]['args'][1])), 'C18.R3', 'check:by-request-service', site(ck), 'service_health(request.service)')
         nw = [(bb, t) for bb, t in ck.calls(name='new') if 'HealthCheckResponse' in (t.get('fn') or '')]
-        R.check(len(nw) == 1 and term_contains(ck.origin(nw[0][1]['args'][0]), lambda x: is_call(x, name='service_health')), 'C18.R3', 'check:returns-that-status', site(ck), 'HealthCheckResponse::new(status from service_health)')
+        R.check(len(nw) == 1 and term_contains(ck.origin(nw[0][1]['args'][0]), lambda x: is_call(x, name='service_health') or (x and x[0] == 'yield')), 'C18.R3', 'check:returns-that-status', site(ck), 'HealthCheckResponse::new(status from service_health)')
         wt = h.body(re.compile(r'server::HealthService as .*Health>::watch::\{closure#0\}$'))
-        R.saw(wt)
-        g = wt.calls(pat='HashMap', name='get')
-        R.check(len(g) == 1 and 'service' in show(wt.origin(g[0][1]['args'][1])), 'C18.R3', 'watch:lookup', site(wt), 'statuses.read().await.get(request.service)')
-        cn = [(bb, t) for bb, t in wt.calls(name='clone') if 'watch::Receiver' in ((t.get('resolved') or '') + (t.get('self_ty') or ''))]
-        R.check(len(cn) == 1 and term_contains(wt.origin(cn[0][1]['args'][0]), lambda x: is_call(x, name='get') and 'HashMap' in x[1]), 'C18.R3', 'watch:clone-stored-receiver', site(wt), 'rx.clone() of the stored receiver: %d site(s)' % len(cn))
+        fwt = family(h, wt)
+        R.saw(*fwt)
+        g = fam_calls(fwt, pat='HashMap', name='get')
+        okk = len(g) == 1 and ('service' in show(g[0][0].origin(g[0][2]['args'][1])) or (g[0][0] is not wt and term_contains(g[0][0].origin(g[0][2]['args'][1]), lambda x: x and x[0] == 'field' and x[1] in (('env',), ('deref', ('env',))))))
+        R.check(okk, 'C18.R3', 'watch:lookup', site(wt), 'statuses.read().await.get(request.service): %d lookup(s)' % len(g))
+        cn = [(b_, bb, t) for b_, bb, t in fam_calls(fwt, name='clone') if 'watch::Receiver' in ((t.get('resolved') or '') + (t.get('self_ty') or ''))]
+        R.check(len(cn) == 1 and from_get_rx(cn[0][0], cn[0][2]['args'][0]), 'C18.R3', 'watch:clone-stored-receiver', site(wt), 'rx.clone() of the stored receiver: %d site(s)' % len(cn))
         ws = [(bb, t) for bb, t in wt.calls(name='new') if (t.get('fn') or '').endswith('server::WatchStream::new')]
-        R.check(len(ws) == 1 and term_contains(wt.origin(ws[0][1]['args'][0]), lambda x: is_call(x, name='clone')), 'C18.R3', 'watch:stream-of-that-clone', site(wt), 'WatchStream::new(status_rx)')
-        nf = wt.calls(pat='Status::not_found')
-        R.check(len(nf) == 1 and any(tm[0] == 'discr' and 'get(' in show(tm) and vals in ([0], ['else']) for s, vals, tm in wt.edge_guards(nf[0][0])), 'C18.R3', 'watch:not_found-on-miss', site(wt), 'Status::not_found when the name is not registered')
+        via_helper = cn and cn[0][0] is not wt
+        R.check(len(ws) == 1 and (term_contains(wt.origin(ws[0][1]['args'][0]), lambda x: is_call(x, name='clone')) or (via_helper and term_contains(wt.origin(ws[0][1]['args'][0]), lambda x: x and (x[0] == 'yield' or is_call(x, name='poll'))))), 'C18.R3', 'watch:stream-of-that-clone', site(wt), 'WatchStream::new(status_rx)')
+        nf = fam_calls(fwt, pat='Status::not_found')
+        oknf = False
+        if len(nf) == 1 and nf[0][0] is wt:
+            oknf = any(tm[0] == 'discr' and ('get(' in show(tm) or (via_helper and term_contains(tm, lambda x: x and (x[0] == 'yield' or is_call(x, name='poll'))))) and vals in ([0], ['else']) for s, vals, tm in wt.edge_guards(nf[0][1]))
+        elif len(nf) == 1:
+            oknf = any(t2.get('name') in ('ok_or_else', 'ok_or') for bb2, t2 in wt.calls())
+        R.check(oknf, 'C18.R3', 'watch:not_found-on-miss', site(wt), 'Status::not_found when the name is not registered: %r' % oknf)
         wn = h.body('server::WatchStream::new')
         R.saw(wn)
         c = wn.calls(name='new')
@@ -157,13 +171,19 @@ def run(R):
         R.saw(pn)
         pl = pn.calls(name='poll_next')
         R.check(len(pl) == 1 and mentions_field(pn.origin(pl[0][1]['args'][0]), 'inner'), 'C18.R3', 'stream:forwards-inner', site(pn), 'polls the wrapped WatchStream')
-        fam_pn = [pn] + [c for c in h.bodies if c.path.startswith(pn.path + '::') and c.kind == 'closure']
-        selfmade = [(fb, bb) for fb in fam_pn for bb, i, p, a, ops in mirlib.aggregates(fb, 'task::Poll', 'Pending')]
+        fam_pn = family(h, pn)
+        selfmade = []
+        for fb in fam_pn:
+            for bb, i, p, a, ops in mirlib.aggregates(fb, 'task::Poll', 'Pending'):
+                g_ = fb.edge_guards(bb)
+                from_inner = fb is pn and any(tm[0] == 'discr' and is_call(strip_refs(tm[1]), name='poll_next') and tm[2] and len(vals) == 1 and dict((x_, y_) for x_, y_ in tm[2]).get(vals[0]) == 'Pending' for s_, vals, tm in g_)
+                if not from_inner:
+                    selfmade.append((fb, bb))
         R.check(not selfmade, 'C18.R3', 'stream:no-self-made-pending', site(selfmade[0][0], selfmade[0][1]) if selfmade else site(pn),
-                'Poll::Pending is only ever the inner stream\'s Pending (which registered the waker): constructed Pending sites %d — returning Pending without a registered waker parks the watcher forever' % len(selfmade))
-        inner = [c for c in h.bodies if c.path.startswith(pn.path + '::') and c.kind == 'closure']
-        okm = any(any('HealthCheckResponse' in (t.get('fn') or '') and show(c.origin(t['args'][0])).startswith('arg2') for bb, t in c.calls(name='new')) for c in inner)
-        R.check(okm, 'C18.R3', 'stream:maps-each-status', site(pn), 'each status is mapped to Ok(HealthCheckResponse::new(status))')
+                'Poll::Pending is only ever the inner stream\'s Pending (which registered the waker): other constructed Pending sites %d — returning Pending without a registered waker parks the watcher forever' % len(selfmade))
+        news = [(fb, bb, t) for fb in fam_pn for bb, t in fb.calls(name='new') if 'HealthCheckResponse' in (t.get('fn') or '')]
+        okm = len(news) == 1 and (show(news[0][0].origin(news[0][2]['args'][0])).startswith('arg2') if news[0][0] is not pn else term_contains(pn.origin(news[0][2]['args'][0]), lambda x: x and x[0] == 'variant' and x[2] == 'Some' and term_contains(x, lambda y: is_call(y, name='poll_next'))))
+        R.check(okm, 'C18.R3', 'stream:maps-each-status', site(pn), 'each status yielded by the inner stream is mapped to Ok(HealthCheckResponse::new(status))')
 
     # ---------------------------------------------------------------- R4 defaults / sharing / conversions
     R.describe('C18.R4', 'HealthReporter::new registers "" -> SERVING; health_reporter() shares one Arc between reporter and service; ServingStatus conversion is the identity table')
@@ -194,5 +214,5 @@ def run(R):
             R.eq(got.get(nme), nme, 'C18.R4', 'convert:%s' % nme, site(cv), 'wire status for ServingStatus::%s' % nme)
         rn = h.body('server::<impl generated::grpc_health_v1::HealthCheckResponse>::new')
         R.saw(rn)
-        fr = rn.calls(name='from')
+        fr = rn.calls(name='from') + rn.calls(name='into')
         R.check(len(fr) == 1 and show(rn.origin(fr[0][1]['args'][0])).startswith('arg1'), 'C18.R4', 'response-carries-status', site(rn), 'HealthCheckResponse::new(status) converts that status')
